@@ -45,7 +45,8 @@ def gen_wallet(rng, n, addr="k0", ada_only=False, coin_lo=1_500_000, coin_hi=60_
         coin = rng.choice([rng.randint(coin_lo, coin_hi), 2_000_000, 5_000_000, 10_000_000, 100_000_000])
         if shared and rng.random() < 0.8:
             t = rng.choice(shared)
-            ix = rng.choice([j for j in (0, 1, 2, 9, 10, 11, 23, 24, 99, 100, 101, 255, 256, 999, 1000, 65535, 65536) if (t, j) not in used])
+            free = [j for j in (0, 1, 2, 9, 10, 11, 23, 24, 99, 100, 101, 255, 256, 999, 1000, 65535, 65536) if (t, j) not in used]
+            ix = rng.choice(free) if free else next(j for j in range(300, 400) if (t, j) not in used)
         else:
             t, ix = txid(rng), rng.choice([0, 0, 1, 2, 23, 24, 255, 256])
         used.add((t, ix))
@@ -85,6 +86,8 @@ def gen_value_scenario(rng, ada_only=None, plain=False):
     """returns a scenario dict; `plain` = no certificates / mint / withdrawals / governance (selection-focused)"""
     ada_only = rng.random() < 0.35 if ada_only is None else ada_only
     n = rng.randint(1, 12)
+    if rng.random() < 0.03:
+        n = rng.choice([24, 25, 30])          # an input set whose length does not fit the initial byte of its CBOR head
     utxos = gen_wallet(rng, n, "k0", ada_only)
     ids = [u["id"] for u in utxos]
     sc = {"params": dict(rng.choice(PARAM_SETS)), "utxos": utxos, "address_utxos": {}, "ops": [], "build": {}}
